@@ -3,6 +3,7 @@ package scen
 import (
 	"fmt"
 	"strings"
+	"sync/atomic"
 	"time"
 
 	"github.com/gobwas/ws"
@@ -210,11 +211,11 @@ func scenTDN(s *sched.Sim, cfg Config, res *Result) {
 		s.Describe(map[string]any{"gateway": gc.String(), "history": d, "policy": fmt.Sprintf("%+v", s.Policy)})
 	}
 	clients := make([]*wsClient, nConn)
-	finished := 0
+	var finished atomic.Int32
 	for c := 0; c < nConn; c++ {
 		c := c
 		s.Go(fmt.Sprintf("wsclient%d", c), func() {
-			defer func() { finished++ }()
+			defer func() { finished.Add(1) }()
 			cl := env.connect(fmt.Sprintf("c%d", c))
 			clients[c] = cl
 			if cl.dialErr != "" {
@@ -270,7 +271,7 @@ func scenTDN(s *sched.Sim, cfg Config, res *Result) {
 			}
 			// the gateway is expected to wind the connection down now
 			dl := time.Now().Add(30 * time.Second)
-			for !cl.closed && !cl.readerDone && time.Now().Before(dl) {
+			for !cl.isClosed() && !cl.isReaderDone() && time.Now().Before(dl) {
 				time.Sleep(100 * time.Millisecond)
 			}
 			cl.conn.Close()
@@ -294,7 +295,7 @@ func scenTDN(s *sched.Sim, cfg Config, res *Result) {
 		return true
 	}
 	defer env.closeAll()
-	end := s.Run(func() bool { return finished == nConn }, 1500000, 130*time.Second)
+	end := s.Run(func() bool { return int(finished.Load()) == nConn }, 1500000, 130*time.Second)
 	if end == sched.StepBudget {
 		res.Verdict, res.Anomaly = "anomaly", "step budget exhausted in TDN"
 		return
@@ -326,7 +327,7 @@ func scenTDN(s *sched.Sim, cfg Config, res *Result) {
 		descr = append(descr, fmt.Sprintf("upstream for conn %d %s: %s %v", sp.conn, sp.id, sp.script.ack, evs))
 	}
 	hist := strings.Join(descr, "; ")
-	if finished != nConn {
+	if int(finished.Load()) != nConn {
 		res.Violate(prop+"/client-stuck", "a simulated client did not finish its script: %s parked=%v", hist, s.ParkedLabels())
 	}
 	for c, cl := range clients {
